@@ -10,7 +10,7 @@ from . import base
 TRUSTED_BASE = base.TRUSTED_BASE + ['copy.deepcopy copies deeply and np.array(list) copies (the model allocates fresh cells for them)']
 ASSUMPTIONS = base.ASSUMPTIONS + ['routes are exactly those listed in the statement; copy() (documented shallow), .T and flatten()/ravel() are not among them',
                                   'indexing views are exercised on 2-D objects (x[i] is a row view; 1-D integer indexing returns a copy of the element)']
-RULE = ('HEAP lines: random histories (<=14 steps) that create objects, derive new ones by like=, deepcopy, like(), conversion, +, np.add, ~, <<, indexing, and then mutate one (whole write, indexed write, config change, flag-raising write, reset); '
+RULE = ('HEAP lines: random histories (<=14 steps) that create objects, derive new ones by like=, deepcopy, like(), conversion, +, np.add, ~, >> (trunc/keep), indexing, and then mutate one (whole write, indexed write, config change, flag-raising write, reset); '
         'after every step the observable state (format, codes, config, flags) of ALL live objects and the real sharing graph (config/status identity, np.shares_memory) are compared with the model. '
         'INP lines: lists / nested lists / tuples / arrays of numbers and of bin/hex strings are deep-compared before and after construction. BCF lines: every Config field x invalid values through the setter, Fxp kwargs and Config(). '
         'non-trivial = a history with at least one derivation followed by a mutation')
@@ -75,6 +75,9 @@ def exec_HEAP(t):
                 add(p[1], ~objs[p[2]])
             elif k == 'S':
                 add(p[1], objs[p[2]] << int(p[3]))
+            elif k == 'H':
+                objs[p[2]].config.shifting = 'trunc' if len(order) % 2 else 'keep'
+                add(p[1], objs[p[2]] >> int(p[3]))
             elif k == 'X':
                 add(p[1], objs[p[2]][int(p[3])])
             elif k == 'W':
@@ -208,7 +211,7 @@ def generate(tier, rng):
             if len(live) >= 7:
                 kind = rng.choice(['W', 'I', 'G', 'R', 'F'])
             else:
-                kind = rng.choice(['N', 'K', 'C', 'L', 'V', 'A', 'P', 'B', 'S', 'X', 'W', 'W', 'I', 'I', 'G', 'G', 'R', 'F'])
+                kind = rng.choice(['N', 'K', 'C', 'L', 'V', 'A', 'P', 'B', 'H', 'X', 'W', 'W', 'I', 'I', 'G', 'G', 'R', 'F'])
             src = rng.choice(list(live))
             o = live[src]
             if kind == 'N':
@@ -233,8 +236,8 @@ def generate(tier, rng):
                 nm = next(names); live[nm] = (sg, int(sg) + ni + nf, nf, o[3], o[4]); steps.append('%s:%s:%s:%s' % (kind, nm, src, b))
             elif kind == 'B':
                 nm = next(names); live[nm] = o; steps.append('B:%s:%s' % (nm, src))
-            elif kind == 'S':
-                continue   # the grown word depends on the values; covered by C14, kept out of the history generator
+            elif kind == 'H':
+                nm = next(names); live[nm] = o; steps.append('H:%s:%s:%d' % (nm, src, rng.randint(0, 3)))
             elif kind == 'X':
                 if o[3] < 2:
                     continue
